@@ -167,7 +167,13 @@ def check(tier, seed, replay=None):
                     bad[j][1] = ce
                 kind = "expr/" + ck + "/" + f
             elif kind == "direction":
-                bad.append(["--sort-by", rnd.choice(EXPRS) + rnd.choice([" SIDEWAYS", "=up", " DESCENDING", " 1", " )", " x"])])
+                ex = rnd.choice(EXPRS)
+                if rnd.random() < 0.4:
+                    # the faulty --sort-by repeats the expression of a valid one given before it (every occurrence of an option is read)
+                    bad.append(["--sort-by", ex + rnd.choice(["", " DESC", "=asc"])])
+                    if rnd.random() < 0.3:
+                        bad.append(["--sort-by", rnd.choice(EXPRS)])
+                bad.append(["--sort-by", ex + rnd.choice([" SIDEWAYS", "=up", " DESCENDING", " 1", " )", " x"])])
             elif kind == "set-noeq":
                 bad.append(["--set", rnd.choice(["abc", "@m", "(+ 1 2)"])])
             elif kind == "set-dup":
